@@ -127,7 +127,7 @@ CHECKS["C09"] = (
     "bins and real sequence re-chunking (sequences restricted to new bounds, idempotence, chunk offsets across a 128 kb boundary, "
     "2^29 boundary = recorded finding F6c).",
     _NOTE + " cgranges branch not installed, not covered.", "DESIGN.md §3 C09")
-for _p in [ "C09", "C10", "C11", "C17",
+for _p in ["C10", "C11", "C17",
            "C19"]:
     NOT_APPLICABLE[_p] = "check not built yet (build in progress; see DESIGN.md §3 for the planned solver-based check)"
 NOT_APPLICABLE["C12"] = ("GenBank writer cannot emit a feature on the installed Biopython (SeqFeature(strand=) TypeError), the "
